@@ -67,6 +67,14 @@ def uninstall():
 def open_logix(target, path="192.168.1.10", **kw):
     from pycomm3 import LogixDriver
     install(target)
+    # an upload legitimately needs one frame per symbol page and per template fragment (a target may return one byte at a time)
+    try:
+        proj = target.project
+        frag = max(1, getattr(target, "tmpl_frag", 480))
+        blobs = sum(len(proj.template_blob(u)) // frag + 4 for u in proj.data["udts"])
+        CURRENT["budget"] += 3 * (blobs + 4 * len(proj.data["tags"]) + 64)
+    except Exception:
+        pass
     plc = LogixDriver(path, **kw)
     plc.open()
     return plc
